@@ -38,7 +38,7 @@ class SortFunction(Sorter):
 def sorter_for(sort,  # type: Sort
                ):  # type (...) -> Sorter
 
-    path_ranking = lambda x: x.original_location + str(x.deletion_date)
+    path_ranking = lambda x: (x.original_location, str(x.deletion_date))
     date_rankking = lambda x: str(x.deletion_date)
     return {
         Sort.ByPath: SortFunction(path_ranking),
